@@ -275,8 +275,27 @@ func ruleCtx(c *Ctx) {
 	c.atLeast("assignments of exec.Cmd cancellation fields", nCmd, 1)
 
 	// (5) system(): after a failed wait the context error is preferred
-	cb := c.ssaFunc("interp", "interp.callBuiltin")
-	if cb != nil {
+	// the implementation of system() is whichever function both builds a shell command and waits for it
+	var systemFns []*ssa.Function
+	for _, fn := range c.srcFuncs("interp") {
+		hasShell, hasWait := false, false
+		allInstrs(fn, func(in ssa.Instruction) {
+			if callsNamed(in, "execShell") {
+				hasShell = true
+			}
+			if callsNamed(in, "waitExitCode") {
+				hasWait = true
+			}
+		})
+		if hasShell && hasWait {
+			systemFns = append(systemFns, fn)
+		}
+	}
+	if len(systemFns) == 0 {
+		c.undecided("system:prefer-ctx-error", token.NoPos, "no function both builds a shell command (execShell) and waits for it (waitExitCode): the implementation of system() was not found")
+	}
+	for _, cb := range systemFns {
+		cb := cb
 		okPref := false
 		allInstrs(cb, func(in ssa.Instruction) {
 			if !callsNamed(in, "waitExitCode") {
